@@ -1,8 +1,8 @@
 package props
 
 import (
-	"go/ast"
 	"fmt"
+	"go/ast"
 	"sort"
 	"strings"
 
@@ -174,11 +174,13 @@ func C06(p *core.Program, r *core.Report) {
 	// the base handed to the absolutisers is the element's own PageURL
 	c := core.NewCanon(p)
 	nBase := 0
-	for _, fn := range p.ModFunctions(false) {
+	doneBase := map[string]bool{}
+	for _, u := range units(p) {
+		fn := p.Original(u)
 		if core.FnPkgPath(fn) != core.ExpandKey(webdocPkg) {
 			continue
 		}
-		for _, call := range core.Calls(fn, func(ci ssa.CallInstruction) bool {
+		for _, call := range core.Calls(u, func(ci ssa.CallInstruction) bool {
 			return core.IsCallTo(ci, absLinksKey, absSrcKey, absSrcSetKey, createAbsKey, domutilPkg+".CloneAndProcessTree", domutilPkg+".CloneAndProcessList")
 		}) {
 			nBase++
@@ -187,7 +189,12 @@ func C06(p *core.Program, r *core.Report) {
 				continue
 			}
 			ok := base == "$0.PageURL" || base == "$0.Image.PageURL"
-			r.Add("U2", fmt.Sprintf("%s: base URL of %s", core.ShortKey(fn), core.Callee(call).Name()), p.Pos(call.Pos()), ok, "base = "+base)
+			key := fmt.Sprintf("%s: base URL of %s", unitName(p, u), core.Callee(call).Name())
+			if doneBase[key+p.Pos(call.Pos())] {
+				continue
+			}
+			doneBase[key+p.Pos(call.Pos())] = true
+			r.Add("U2", key, p.Pos(call.Pos()), ok, "base = "+base)
 		}
 	}
 	r.Add("U2", "absolutiser call sites in package webdoc", "", nBase >= 8, fmt.Sprintf("%d", nBase))
@@ -280,8 +287,8 @@ func C06(p *core.Program, r *core.Report) {
 		pr := `url.ParseRequestURI($0)`
 		spec := core.DecisionSpec{
 			Atoms: map[string]string{
-				"empty":    q(`$0 == ""`),
-				"nobase":   q(`$1 == nil`),
+				"empty":  q(`$0 == ""`),
+				"nobase": q(`$1 == nil`),
 				// a reference that starts with '#' (spelled with HasPrefix or as a test of the first
 				// byte; the empty string has been returned before)
 				"fragment": `^(strings\.HasPrefix\(\$0,"#"\)|\$0\[0\] == 35)$`,
@@ -417,7 +424,7 @@ func checkSrcsetAgreement(p *core.Program, r *core.Report, rule string) {
 					}
 					name := cf.String()
 					if strings.HasPrefix(name, "(*regexp.Regexp).") {
-						if core.NewCanon(p).Of(call.Call.Args[0]) == "domutil.rxSrcsetURL" {
+						if core.NewCanon(p).Of(call.Call.Args[0]) == rxSrcset {
 							usesRx = true
 						} else {
 							other = append(other, name+" on "+core.NewCanon(p).Of(call.Call.Args[0]))
@@ -429,6 +436,6 @@ func checkSrcsetAgreement(p *core.Program, r *core.Report, rule string) {
 				}
 			}
 		}
-		r.Add(rule, core.ShortKey(fn)+" tokenises srcset with domutil.rxSrcsetURL only", p.Pos(fn.Pos()), usesRx && len(other) == 0, fmt.Sprintf("other tokenisers: %v", other))
+		r.Add(rule, core.ShortKey(fn)+" tokenises srcset with the reviewed srcset pattern only", p.Pos(fn.Pos()), usesRx && len(other) == 0, fmt.Sprintf("other tokenisers: %v", other))
 	}
 }
